@@ -17,6 +17,7 @@ import (
 
 var redirect = map[string]string{
 	"sync/atomic":                            "github.com/anthdm/hollywood/verifshim/atomic",
+	"sync":                                   "github.com/anthdm/hollywood/verifshim/sync",
 	"github.com/anthdm/hollywood/ringbuffer": "github.com/anthdm/hollywood/verifshim/ringbuffer",
 }
 
